@@ -1,20 +1,24 @@
 (** * C16 -- reported transform error bounds are true bounds.
+    About the code as it is NOW (after fix: 5455df2 -- translation-free [mul3x3_abs] for the propagated input error --
+    and fix: 34af114 -- gamma(4) for the four roundings of a point row).  The refutations of the former code are kept as
+    theorems about the [_pinned] functions of Model/Pinned.v.
     Float tier ([NumB prec emax]: EVERY binary format with at least 8 bits of precision; binary64 and binary32 are
     instances) for (S) soundness and (M) meaningfulness; exact tier (reals) for (R), the ray origin.
     Vocabulary (Proofs/C16_errbound.v): [B2M], [B2V] read the stored floats as reals; [img_pt M x], [img_vec M x] are
     the EXACT images under the stored matrix; [within K ret img err] : |ret_i - img_i| <= K * err_i for i = x,y,z;
     [inbox c e x] : |x_i - c_i| <= e_i; [abs_img M x]_i = sum_j |m_ij x_j|; [abs_trans M]_i = |m_i3|;
     [first_order g M x e]_i = g * (sum_j |m_ij x_j| + |m_i3|) + sum_j |m_ij e_j|  (the property's first-order worst case);
-    [uro] = 2^-prec (unit roundoff), [gamma3] = 3u/(1-3u) as a real number.
+    [uro] = 2^-prec (unit roundoff), [gamma3] = 3u/(1-3u) as a real number (the property's yardstick; the point
+    functions multiply by gamma(4) = 4u/(1-4u) <= 1.35 gamma3).
     Guards: [fin3 err] -- the REPORTED error components are finite floats (this alone forces every input and every
     intermediate result to be finite: no overflow, no NaN); [affine_last m] -- bottom row exactly (0,0,0,1), the
     C06 invariant of every constructed/composed transform; [safe_prods M x] -- no product m_ij * x_j is non-zero and
     below 2^(emin + 2 prec) (binary64: 2^-968 ~ 4e-292), i.e. no underflow: [C16_S_underflow_refuted] shows that this
-    guard cannot be dropped.
+    guard cannot be dropped (finding F9c, still open); [safe_trans M] -- the same for the entries m_i3 (only for (M)).
     This file contains only statements closed by [exact]. *)
 From Coq Require Import ZArith Reals.
 From Flocq Require Import Core BinarySingleNaN.
-From G3 Require Import Model.Num Model.Base Model.Vec Model.Transform Model.Proposed.
+From G3 Require Import Model.Num Model.Base Model.Vec Model.Transform Model.Pinned.
 From G3 Require Import Proofs.C06_transform Proofs.C16_errbound Proofs.C16_ray.
 Local Open Scope R_scope.
 
@@ -33,121 +37,107 @@ Section C16_float_tier.
   Notation u := (uro prec).
   Notation gamma3 := (gamma3 prec).
 
-  (** (S), vectors: TRUE as stated, no extra factor (the |m_i3| that [mul4x4_abs] adds only loosens it).
-      The bound is itself computed in floating point; its roundings are accounted for. *)
+  (** (S), vectors: TRUE as stated, no extra factor (three roundings per row, gamma(3); the |m_i3| that [mul4x4_abs]
+      adds only loosens it).  The bound is itself computed in floating point; its roundings are accounted for. *)
   Theorem C16_S_vec : forall (m : M4 bf) (v : V3 bf),
     let re := vec_with_error m v in
     fin3 (snd re) -> safe_prods (B2M m) (B2V v) ->
     fin3 (fst re) /\ within 1 (B2V (fst re)) (img_vec (B2M m) (B2V v)) (B2V (snd re)).
   Proof. exact (S_vec prec emax Hprec Hmax Hp8). Qed.
 
-  (** (S), vectors with an input error box.  PARTIAL: proved with the factor (1+4u).
+  (** (S), points: TRUE as stated, no extra factor, since the bound uses gamma(4) for the four roundings of
+      ((m0 x + m1 y) + m2 z) + m3  (needs (4+6u+4u^2+u^3)(1+u)^2(1-4u) <= 4, lemma [poly4_gamma4]) *)
+  Theorem C16_S_point : forall (m : M4 bf) (p : V3 bf),
+    let re := pt_with_error m p in
+    affine_last m -> fin3 (snd re) -> safe_prods (B2M m) (B2V p) ->
+    fin3 (fst re) /\ within 1 (B2V (fst re)) (img_pt (B2M m) (B2V p)) (B2V (snd re)).
+  Proof. exact (S_pt prec emax Hprec Hmax Hp8). Qed.
+
+  (** (S) with an input error box.  PARTIAL, vectors and points alike: proved with the factor (1+4u).
       Full statement (factor 1):
-        forall x', inbox (B2V v) (B2V e) x' -> within 1 (B2V (fst re)) (img_vec (B2M m) x') (B2V (snd re)).
-      Missing: the propagated part is |m|.e evaluated with up to five downward roundings (product, two sums,
-      multiplication by (1+gamma3), final sum) against a gain of (1+gamma3) ~ 1+3u (+1u from rounding 1+gamma3 up to
-      1+4u): a worst-case analysis leaves a deficit of at most 4u relative; the adversarial search finds ratios up to
-      1 - 3e-16 but no violation. *)
+        forall x', inbox (B2V v) (B2V e) x' -> within 1 (B2V (fst re)) (img (B2M m) x') (B2V (snd re)).
+      Missing: the propagated part is sum_j |m_ij e_j| evaluated with up to five downward roundings (product, two sums,
+      multiplication by (1+gamma3), final sum with the rounding part) against a gain of (1+gamma3) ~ 1+3u (1+4u after
+      rounding): a per-operation worst-case analysis leaves a deficit of at most 4u relative.  The adversarial search
+      reaches ratios up to 1 - 3e-16 and finds no violation; a case inside the proved factor but above 1 would be
+      reported by the oracle as a VIOLATION (class [within-proved-factor]). *)
   Theorem C16_S_vec_box_partial : forall (m : M4 bf) (v e : V3 bf),
     let re := vec_propagate_error m v e in
     fin3 (snd re) -> safe_prods (B2M m) (B2V v) -> safe_prods (B2M m) (B2V e) ->
     fin3 (fst re) /\
     forall x' : V3 R, inbox (B2V v) (B2V e) x' -> within (1 + 4 * u) (B2V (fst re)) (img_vec (B2M m) x') (B2V (snd re)).
   Proof. exact (S_vec_box prec emax Hprec Hmax Hp8). Qed.
-
-  (** (S), points.  PARTIAL: proved with the factor 4/3 (1+u); the full statement (factor 1)
-        within 1 (B2V (fst re)) (img_pt (B2M m) (B2V p)) (B2V (snd re))
-      is FALSE ([C16_S_point_refuted]): the row ((m0 x + m1 y) + m2 z) + m3 puts four roundings on the first two
-      products, the bound uses gamma(3).  With gamma(4) in the code the same proof gives factor 1. *)
-  Theorem C16_S_point_partial : forall (m : M4 bf) (p : V3 bf),
-    let re := pt_with_error m p in
-    affine_last m -> fin3 (snd re) -> safe_prods (B2M m) (B2V p) ->
-    fin3 (fst re) /\ within (4 / 3 * (1 + u)) (B2V (fst re)) (img_pt (B2M m) (B2V p)) (B2V (snd re)).
-  Proof. exact (S_pt_partial prec emax Hprec Hmax Hp8). Qed.
-
   Theorem C16_S_point_box_partial : forall (m : M4 bf) (p e : V3 bf),
     let re := pt_propagate_error m p e in
     affine_last m -> fin3 (snd re) -> safe_prods (B2M m) (B2V p) -> safe_prods (B2M m) (B2V e) ->
     fin3 (fst re) /\
-    forall x' : V3 R, inbox (B2V p) (B2V e) x' -> within (4 / 3 * (1 + 3 * u)) (B2V (fst re)) (img_pt (B2M m) x') (B2V (snd re)).
-  Proof. exact (S_pt_box_partial prec emax Hprec Hmax Hp8). Qed.
+    forall x' : V3 R, inbox (B2V p) (B2V e) x' -> within (1 + 4 * u) (B2V (fst re)) (img_pt (B2M m) x') (B2V (snd re)).
+  Proof. exact (S_pt_box prec emax Hprec Hmax Hp8). Qed.
 
-  (** (M) for the four [*_with_error] functions (points and vectors report the same error vector) *)
-  Theorem C16_M_with_error : forall (m : M4 bf) (p : V3 bf),
-    let err := snd (pt_with_error m p) in
-    fin3 err -> safe_prods (B2M m) (B2V p) -> safe_trans (B2M m) ->
-    snd (vec_with_error m p) = err /\
-    vle (B2V err) (vscaleR 2 (first_order gamma3 (B2M m) (B2V p) V0)).
+  (** (M) for the four [*_with_error] functions: within a factor 2 of the first-order worst case
+      (points: gamma(4) = 4/3 gamma(3) is inside the factor) *)
+  Theorem C16_M_with_error : forall (m : M4 bf) (p : V3 bf), safe_prods (B2M m) (B2V p) -> safe_trans (B2M m) ->
+    (fin3 (snd (pt_with_error m p)) -> vle (B2V (snd (pt_with_error m p))) (vscaleR 2 (first_order gamma3 (B2M m) (B2V p) V0))) /\
+    (fin3 (snd (vec_with_error m p)) -> vle (B2V (snd (vec_with_error m p))) (vscaleR 2 (first_order gamma3 (B2M m) (B2V p) V0))).
   Proof. exact (M_with_error prec emax Hprec Hmax Hp8). Qed.
 
-  (** what the four [*_propagate_error] functions report, bounded from above: |m_i3| enters the propagated part with
-      the factor (1+gamma3).  (M) itself is FALSE for them: [C16_M_refuted]. *)
-  Theorem C16_M_propagate_upper : forall (m : M4 bf) (p e : V3 bf),
-    let err := snd (pt_propagate_error m p e) in
-    fin3 err -> safe_prods (B2M m) (B2V p) -> safe_prods (B2M m) (B2V e) -> safe_trans (B2M m) ->
-    snd (vec_propagate_error m p e) = err /\
-    vle (B2V err) (vscaleR (1 + 9 * u)
-      (lin2 (1 + gamma3) (vaddR (abs_img (B2M m) (B2V e)) (abs_trans (B2M m))) gamma3 (vaddR (abs_img (B2M m) (B2V p)) (abs_trans (B2M m))))).
-  Proof. exact (M_propagate_upper prec emax Hprec Hmax Hp8). Qed.
-
-  (** the PROPOSED repair (Model/Proposed.v; not applied to the crate): (M) holds whatever the translation, and the
-      (S) statements keep the constants of the current code *)
-  Theorem C16_M_fixed : forall (m : M4 bf) (p e : V3 bf),
-    let err := snd (pt_propagate_error_fixed m p e) in
-    fin3 err -> safe_prods (B2M m) (B2V p) -> safe_prods (B2M m) (B2V e) -> safe_trans (B2M m) ->
-    snd (vec_propagate_error_fixed m p e) = err /\
-    vle (B2V err) (vscaleR 2 (first_order gamma3 (B2M m) (B2V p) (B2V e))).
-  Proof. exact (M_fixed prec emax Hprec Hmax Hp8). Qed.
-  Theorem C16_S_fixed_partial : forall (m : M4 bf) (p e : V3 bf),
-    safe_prods (B2M m) (B2V p) -> safe_prods (B2M m) (B2V e) ->
-    (let re := vec_propagate_error_fixed m p e in
-     fin3 (snd re) -> fin3 (fst re) /\
-     forall x' : V3 R, inbox (B2V p) (B2V e) x' -> within (1 + 4 * u) (B2V (fst re)) (img_vec (B2M m) x') (B2V (snd re))) /\
-    (let re := pt_propagate_error_fixed m p e in
-     affine_last m -> fin3 (snd re) -> fin3 (fst re) /\
-     forall x' : V3 R, inbox (B2V p) (B2V e) x' -> within (4 / 3 * (1 + 3 * u)) (B2V (fst re)) (img_pt (B2M m) x') (B2V (snd re))).
-  Proof. exact (S_fixed_partial prec emax Hprec Hmax Hp8). Qed.
+  (** (M) for the four [*_propagate_error] functions, WHATEVER the translation *)
+  Theorem C16_M_propagate : forall (m : M4 bf) (p e : V3 bf),
+    safe_prods (B2M m) (B2V p) -> safe_prods (B2M m) (B2V e) -> safe_trans (B2M m) ->
+    (fin3 (snd (pt_propagate_error m p e)) ->
+     vle (B2V (snd (pt_propagate_error m p e))) (vscaleR 2 (first_order gamma3 (B2M m) (B2V p) (B2V e)))) /\
+    (fin3 (snd (vec_propagate_error m p e)) ->
+     vle (B2V (snd (vec_propagate_error m p e))) (vscaleR 2 (first_order gamma3 (B2M m) (B2V p) (B2V e)))).
+  Proof. exact (M_propagate prec emax Hprec Hmax Hp8). Qed.
 End C16_float_tier.
 
-(** ** binary64 witnesses on the code as it is (matrices as stored by the real crate for the quoted chains) *)
+(** ** binary64 witnesses (matrices as stored by the real crate for the quoted chains) *)
 
-(** (S) fails for points: [translate(0.1,0,0) . rotate_z(20) . rotate_x(35)], point
-    (0.5320888862385273, -1.7846530571159382, 5.659924931209981e-16): the exact image is 4.16e-16 from the returned x
-    while the returned error is 3.66e-16 (ratio 1.136), all guards of [C16_S_point_partial] holding *)
-Theorem C16_S_point_refuted : exists (m : M4 b64) (p : V3 b64),
-  let re := @pt_with_error _ NumB64 m p in
+(** FORMER code (gamma(3) for points, before fix: 34af114): (S) failed.  [translate(0.1,0,0) . rotate_z(20) . rotate_x(35)],
+    point (0.5320888862385273, -1.7846530571159382, 5.659924931209981e-16): the exact image is 4.16e-16 from the returned x
+    while the returned error was 3.66e-16 (ratio 1.136), all guards holding *)
+Theorem C16_S_point_pinned_refuted : exists (m : M4 b64) (p : V3 b64),
+  let re := @pt_with_error_pinned _ NumB64 m p in
   affine_last 53 1024 m /\ fin3 53 1024 (snd re) /\ safe_prods 53 1024 (B2M 53 1024 m) (B2V 53 1024 p) /\
   ~ within 1 (B2V 53 1024 (fst re)) (img_pt (B2M 53 1024 m) (B2V 53 1024 p)) (B2V 53 1024 (snd re)).
-Proof. exact S_point_refuted. Qed.
+Proof. exact S_point_pinned_refuted. Qed.
 
-(** (M) fails for the [*_propagate_error] functions: [translate(1000,0,0)], point (1,2,3), input error 1e-9: the
-    reported x error (1000.000000001) exceeds twice -- indeed 10^11 times -- the first-order worst case (1.0000003e-9) *)
-Theorem C16_M_refuted : exists (m : M4 b64) (p e : V3 b64),
-  let err := snd (@pt_propagate_error _ NumB64 m p e) in
+(** FORMER code (translation column added to the propagated error, before fix: 5455df2): (M) failed.
+    [translate(1000,0,0)], point (1,2,3), input error 1e-9: the reported x error (1000.000000001) exceeded twice --
+    indeed 10^11 times -- the first-order worst case (1.0000003e-9) *)
+Theorem C16_M_pinned_refuted : exists (m : M4 b64) (p e : V3 b64),
+  let err := snd (@pt_propagate_error_pinned _ NumB64 m p e) in
   affine_last 53 1024 m /\ fin3 53 1024 err /\ safe_prods 53 1024 (B2M 53 1024 m) (B2V 53 1024 p) /\
   safe_prods 53 1024 (B2M 53 1024 m) (B2V 53 1024 e) /\ safe_trans 53 1024 (B2M 53 1024 m) /\
-  snd (@vec_propagate_error _ NumB64 m p e) = err /\
+  snd (@vec_propagate_error_pinned _ NumB64 m p e) = err /\
   ~ vle (B2V 53 1024 err) (vscaleR 2 (first_order (gamma3 53) (B2M 53 1024 m) (B2V 53 1024 p) (B2V 53 1024 e))) /\
   100000000000 * vx (first_order (gamma3 53) (B2M 53 1024 m) (B2V 53 1024 p) (B2V 53 1024 e)) < vx (B2V 53 1024 err).
-Proof. exact M_refuted. Qed.
+Proof. exact M_pinned_refuted. Qed.
 
-(** without the no-underflow guard (S) fails even for vectors: [scale(0.5,1,1)] on (2^-1074,0,0) returns 0 +- 0 *)
+(** CURRENT code, finding F9c (open): without the no-underflow guard (S) fails even for vectors:
+    [scale(0.5,1,1)] on (2^-1074,0,0) returns 0 +- 0 *)
 Theorem C16_S_underflow_refuted : exists (m : M4 b64) (v : V3 b64),
   let re := @vec_with_error _ NumB64 m v in
   affine_last 53 1024 m /\ fin3 53 1024 (snd re) /\
   ~ within 1 (B2V 53 1024 (fst re)) (img_vec (B2M 53 1024 m) (B2V 53 1024 v)) (B2V 53 1024 (snd re)).
 Proof. exact S_underflow_refuted. Qed.
 
-(** non-vacuity of the float-tier hypotheses: they all hold on the witness of the (S) finding with a 1e-9 input box *)
+(** non-vacuity of the float-tier hypotheses: they all hold on the witness of the former (S) finding with a 1e-9 input
+    box; on it the repaired code is sound, and on the former (M) witness it is meaningful *)
 Example C16_nonvacuous :
   affine_last 53 1024 wS_m /\ fin3 53 1024 (snd (@pt_with_error _ NumB64 wS_m wS_p)) /\
   fin3 53 1024 (snd (@vec_with_error _ NumB64 wS_m wS_p)) /\
   fin3 53 1024 (snd (@pt_propagate_error _ NumB64 wS_m wS_p wS_e)) /\
   fin3 53 1024 (snd (@vec_propagate_error _ NumB64 wS_m wS_p wS_e)) /\
-  fin3 53 1024 (snd (@pt_propagate_error_fixed _ NumB64 wS_m wS_p wS_e)) /\
   safe_prods 53 1024 (B2M 53 1024 wS_m) (B2V 53 1024 wS_p) /\ safe_prods 53 1024 (B2M 53 1024 wS_m) (B2V 53 1024 wS_e) /\
   safe_trans 53 1024 (B2M 53 1024 wS_m) /\ inbox (B2V 53 1024 wS_p) (B2V 53 1024 wS_e) (B2V 53 1024 wS_p).
 Proof. exact C16_nonvacuous_proof. Qed.
+Example C16_former_witnesses_now_pass :
+  (let re := @pt_with_error _ NumB64 wS_m wS_p in
+   within 1 (B2V 53 1024 (fst re)) (img_pt (B2M 53 1024 wS_m) (B2V 53 1024 wS_p)) (B2V 53 1024 (snd re))) /\
+  vle (B2V 53 1024 (snd (@pt_propagate_error _ NumB64 wM_m wM_p wS_e)))
+      (vscaleR 2 (first_order (gamma3 53) (B2M 53 1024 wM_m) (B2V 53 1024 wM_p) (B2V 53 1024 wS_e))).
+Proof. exact (conj S_point_witness_now_sound M_witness_now_meaningful). Qed.
 
 (** ** (R), exact tier: the nudge of the ray origin ([nudge o d e] is the common tail of the four [*_ray*] functions;
     [e] is the reported origin error, non-negative by construction) *)
